@@ -35,18 +35,25 @@ TREE_TRACE = os.path.join(SPECS, "pages", "PageTreeTrace.tla")
 GEOM_TRACE = os.path.join(SPECS, "pages", "PageGeomTrace.tla")
 
 TREE_DEVS = ("ContinueSkipsMax", "CatalogInherits")
-GEOM_DEVS = ("BoxAsWritten",)
+GEOM_DEVS = ("BoxAsWritten", "RealRotateIgnored", "CropNotClipped")
+EXT_DEVS = ("RealRotateIgnored", "CropNotClipped")     # outside C04's statement: differences are NOTE lines (extended coverage)
 TREE_ACTIONS = ["AReveal", "ASkipVisited", "AEnterPages", "AEnterPage", "AEnterOther", "ALoopKid", "ALoopEnd",
                 "ASelSkip", "ASelYield"]
-GEOM_ACTIONS = ["AParseBox", "AParseRotate", "ACtm90", "ACtm180", "ACtm270", "ACtmElse", "ABeginPage", "ARenderMark"]
+GEOM_ACTIONS = ["AParseBox", "AParseCrop", "AParseRotate", "ACtm90", "ACtm180", "ACtm270", "ACtmElse", "ABeginPage", "ARenderMark"]
 TREE_INVARIANTS = ["TypeOK", "DFSOrder", "NearestAncestor", "VisitedOnce", "Selection", "SelectionSane", "LoopShape", "LabelByIndex"]
 ALLK = '{"Pages", "Page", "Other"}'
 
+PLAIN = dict(RForms="<- IntOnly", UserUnits="<- NoUnit", Crops="<- NoCrop")
 GEOM_CONFIGS = {
-    "quick": dict(Xs="<- XsSmall", Ys="<- YsSmall", Ws="{2, 3}", Hs="{2, 5}", Orders="<- OrdersAll",
-                  Rotates="<- RotatesSmall", Marks="<- MarksSmall"),
-    "thorough": dict(Xs="<- XsFull", Ys="<- YsFull", Ws="{1, 2, 3}", Hs="{2, 4, 5}", Orders="<- OrdersAll",
-                     Rotates="<- RotatesFull", Marks="<- MarksFull"),
+    "quick": [dict(name="boxes", Xs="<- XsSmall", Ys="<- YsSmall", Ws="{2, 3}", Hs="{2, 5}", Orders="<- OrdersAll",
+                   Rotates="<- RotatesSmall", Marks="<- MarksSmall", **PLAIN),
+              # Rotate written as a real number, /UserUnit, /CropBox inside / beyond the MediaBox
+              dict(name="extras", Xs="<- XsTwo", Ys="<- YsOne", Ws="{2, 3}", Hs="{2}", Orders="<- OrdersPlain", Rotates="<- RotatesFew",
+                   Marks="<- MarksOne", RForms="<- BothForms", UserUnits="<- Units", Crops="<- AllCrops")],
+    "thorough": [dict(name="boxes", Xs="<- XsFull", Ys="<- YsFull", Ws="{1, 2, 3}", Hs="{2, 4, 5}", Orders="<- OrdersAll",
+                      Rotates="<- RotatesFull", Marks="<- MarksFull", **PLAIN),
+                 dict(name="extras", Xs="<- XsSmall", Ys="<- YsSmall", Ws="{2, 3}", Hs="{2, 5}", Orders="<- OrdersAll", Rotates="<- RotatesSmall",
+                      Marks="<- MarksOne", RForms="<- BothForms", UserUnits="<- Units", Crops="<- AllCrops")],
 }
 
 
@@ -83,8 +90,8 @@ TREE_CONFIGS = {
         tree_cfg("select-tree", 5, 3, 4, [], pn="<- PN_Sub3", mp="{0, 1, 2, 3, 4}"),
         tree_cfg("annots", 5, 2, 4, ["Rotate", "Annots"], root='{"Pages"}', kinds='{"Pages", "Page"}',
                  need=[a for a in NOSEL if a != "AEnterOther"]),
-        # all four attributes on up to 5 nodes: every node carries none, one, or all four of them
-        tree_cfg("four-attrs-5", 5, 2, 4, RT.INHERITABLE, root='{"Pages"}', kinds='{"Pages", "Page"}', own="<- FewOwnSets",
+        # all four attributes on up to 5 nodes: a node carries none, Resources + MediaBox, CropBox + Rotate, or all four
+        tree_cfg("four-attrs-5", 5, 2, 4, RT.INHERITABLE, root='{"Pages"}', kinds='{"Pages", "Page"}', own="<- PairOwnSets",
                  need=[a for a in NOSEL if a != "AEnterOther"]),
     ],
 }
@@ -194,38 +201,41 @@ def read_emitted(path):
 # ================================================================================================ geometry (A)
 def run_geom_tlc(ck, tier, dev, tmp, label="geometry"):
     """-> list of terminal-state records of the as-coded machine (intended results ride along as page/reflin/refpt)"""
-    consts = dict(GEOM_CONFIGS[tier])
     gdev = [d for d in dev if d in GEOM_DEVS]
-    recs = None
-    for which, dv in (("intended", []), ("as-coded", gdev)):
-        if which == "as-coded" and not gdev:
-            break
-        c = dict(consts)
-        c["Dev"] = tla_set(dv) if dv else "<- NoDev"
-        emitting = (dv == gdev)
-        cfg = write_cfg(os.path.join(tmp, "c04_geom_%s.cfg" % which), constants=c,
-                        invariants=["RotateRange", "BoxLands"], constraints=["EmitTerminal"] if emitting else [],
-                        deadlock=True)
-        emit = os.path.join(tmp, "c04_geom_%s.ndjson" % which)
-        res = run_tlc(GEOM_SPEC, cfg, emit=emit if emitting else None, coverage=(tier == "quick"), timeout=3600)
-        if ck is not None:
-            ck.add_tlc(res, "%s %s Dev=%s" % (label, which, dv))
-        if not res.ok:
-            st = res.error_trace[-1][1] if res.error_trace else {}
-            if ck is None:
-                raise MachineryError("PageGeom: %s violated" % res.violated)
-            ck.violation("model:geom:" + str(res.violated),
-                         "TLC: %s violated on the %s page-geometry model (boxw=%s rraw=%s)"
-                         % (res.violated, which, st.get("boxw"), st.get("rraw")), {"kind": "tlc", "tlc": res.error_text[:4000]})
-            continue
-        if res.actions:
-            require_coverage(res, GEOM_ACTIONS)
-        if emitting:
-            recs = read_emitted(emit)
-            os.remove(emit)
-            if not recs:
-                raise MachineryError("PageGeom emitted no terminal state")
-    return recs or []
+    allrecs = []
+    for conf in GEOM_CONFIGS[tier]:
+        consts = {k: v for k, v in conf.items() if k != "name"}
+        recs = None
+        for which, dv in (("intended", []), ("as-coded", gdev)):
+            if which == "as-coded" and not gdev:
+                break
+            c = dict(consts)
+            c["Dev"] = tla_set(dv) if dv else "<- NoDev"
+            emitting = (dv == gdev)
+            cfg = write_cfg(os.path.join(tmp, "c04_geom_%s_%s.cfg" % (conf["name"], which)), constants=c,
+                            invariants=["RotateRange", "BoxLands", "CropRef", "PageFromMediaBox"],
+                            constraints=["EmitTerminal"] if emitting else [], deadlock=True)
+            emit = os.path.join(tmp, "c04_geom_%s_%s.ndjson" % (conf["name"], which))
+            res = run_tlc(GEOM_SPEC, cfg, emit=emit if emitting else None, coverage=(tier == "quick" and conf["name"] == "boxes"), timeout=3600)
+            if ck is not None:
+                ck.add_tlc(res, "%s %s %s Dev=%s" % (label, conf["name"], which, dv))
+            if not res.ok:
+                st = res.error_trace[-1][1] if res.error_trace else {}
+                if ck is None:
+                    raise MachineryError("PageGeom: %s violated" % res.violated)
+                ck.violation("model:geom:" + str(res.violated),
+                             "TLC: %s violated on the %s page-geometry model (boxw=%s rraw=%s)"
+                             % (res.violated, which, st.get("boxw"), st.get("rraw")), {"kind": "tlc", "tlc": res.error_text[:4000]})
+                continue
+            if res.actions:
+                require_coverage(res, GEOM_ACTIONS)
+            if emitting:
+                recs = read_emitted(emit)
+                os.remove(emit)
+                if not recs:
+                    raise MachineryError("PageGeom emitted no terminal state")
+        allrecs += recs or []
+    return allrecs
 
 
 class GeomTable:
@@ -233,6 +243,8 @@ class GeomTable:
         self.by_key = {}
         self.rot = {}
         for r in recs:
+            if r.get("rform", "int") != "int" or r.get("uu", 1) != 1 or r.get("cropw"):
+                continue            # the table serves the tree replays: plain pages only
             self.by_key[(tuple(r["boxw"]), r["rraw"], tuple(r["pt"]))] = r
             self.rot[r["rraw"]] = r["rotate"]
 
@@ -269,8 +281,12 @@ def judge_geometry(grec, bbox, matrix, findings, where):
             return 0
         if real == coded and grec["fired"]:
             for d in grec["fired"]:
-                findings.append(("dev:" + d, "MediaBox %s Rotate %s: page box %s, marker %s; expected %s, %s (%s)"
-                                 % (grec["boxw"], grec["rraw"], real[0], real[2], want[0], want[2], where)))
+                if d == "CropNotClipped":
+                    continue            # does not touch the page box or the matrix
+                findings.append((("extended:" if d in EXT_DEVS else "dev:") + d,
+                                 "MediaBox %s Rotate %s%s: page box %s, marker %s; expected %s, %s (%s)"
+                                 % (grec["boxw"], grec["rraw"], " (written as a real number)" if grec.get("rform") == "real" else "",
+                                    real[0], real[2], want[0], want[2], where)))
             return 0
         findings.append(("boxlands:rotate=%d:corners=%s" % (grec["rotate"], order_of(grec["boxw"])),
                          "MediaBox %s Rotate %s does not land on the (0,0) page turned clockwise: page box %s "
@@ -295,13 +311,23 @@ def eval_geom_batch(recs, variant):
         objs[nid] = Stream({}, b"BT /F1 10 Tf 1 0 0 1 %d %d Tm (M) Tj ET" % (px, py))
         box = [RT.SCALE * v for v in r["boxw"]]
         rot = r["rraw"]
-        if variant == 1:
+        if r.get("rform") == "real":
+            from ..realise.pdfwriter import Raw
+            rot = Raw(b"%d.0" % r["rraw"])
+        elif variant == 1:
             objs[nid + 1] = box[2]
             objs[nid + 2] = rot
             box = [box[0], box[1], Ref(nid + 1), float(box[3])]
             rot = Ref(nid + 2)
+        if variant == 1 and r.get("rform") == "real":
+            objs[nid + 1] = box[2]
+            box = [box[0], box[1], Ref(nid + 1), float(box[3])]
         objs[nid + 3] = {"Type": Name("Page"), "Parent": Ref(2), "MediaBox": box, "Rotate": rot, "Contents": Ref(nid),
                          "Resources": {"Font": {"F1": Ref(3)}}}
+        if r.get("uu", 1) != 1:
+            objs[nid + 3]["UserUnit"] = r["uu"]
+        if r.get("cropw"):
+            objs[nid + 3]["CropBox"] = [RT.SCALE * v for v in r["cropw"]]
         kids.append(Ref(nid + 3))
         nid += 4
     objs[2] = {"Type": Name("Pages"), "Kids": kids, "Count": len(kids)}
@@ -316,10 +342,30 @@ def eval_geom_batch(recs, variant):
         return findings, drift, 0
     for r, p, lt in zip(recs, pages, lts):
         where = "geometry case"
-        if not (isinstance(p.rotate, int) and 0 <= p.rotate < 360 and (p.rotate - r["rraw"]) % 360 == 0):
+        real_form = r.get("rform") == "real"
+        if not (isinstance(p.rotate, int) and 0 <= p.rotate < 360):
+            findings.append(("rotate-range", "Rotate %d is reported as %r" % (r["rraw"], p.rotate)))
+        elif real_form:
+            # outside the statement (ISO: an integer): the specification's two answers, anything else is unexplained
+            if p.rotate != r.get("refrot"):
+                if p.rotate == r["rotate"] and "RealRotateIgnored" in r["fired"]:
+                    findings.append(("extended:RealRotateIgnored", "Rotate %d.0 (a real number) is reported as %r" % (r["rraw"], p.rotate)))
+                else:
+                    findings.append(("extended:unexplained:rotate", "Rotate %d.0 is reported as %r; as coded %r, as an integer %r"
+                                     % (r["rraw"], p.rotate, r["rotate"], r.get("refrot"))))
+        elif (p.rotate - r["rraw"]) % 360 != 0:
             findings.append(("rotate-range", "Rotate %d is reported as %r" % (r["rraw"], p.rotate)))
         elif p.rotate != r["rotate"]:
             drift += 1
+        if "cropbox" in r:
+            got_crop = tuple(p.cropbox)
+            if got_crop != scaled(r["refcrop"]):
+                if got_crop == scaled(r["cropbox"]) and "CropNotClipped" in r["fired"]:
+                    findings.append(("extended:CropNotClipped", "CropBox %s on MediaBox %s is reported as %s; clipped to the MediaBox it is %s"
+                                     % (r["cropw"], r["boxw"], got_crop, scaled(r["refcrop"]))))
+                else:
+                    findings.append(("extended:unexplained:cropbox", "CropBox %s on MediaBox %s is reported as %s; as coded %s, clipped %s"
+                                     % (r["cropw"], r["boxw"], got_crop, scaled(r["cropbox"]), scaled(r["refcrop"]))))
         if tuple(p.mediabox) != scaled(r["mediabox"]):
             drift += 1
         ch = [c for c in OB.chars_of(lt) if c[0] == "M"]
@@ -609,7 +655,10 @@ def replay_geometry(ck, grecs):
         for lo, hi, variant, findings, d, n in p.imap_unordered(_geom_chunk, tasks):
             drift += d
             for key, what in findings:
-                report(ck, key, what, {"kind": "geom", "recs": grecs[lo:hi], "variant": variant})
+                if key.startswith("extended:"):
+                    note_extended(ck, key[len("extended:"):], what)
+                else:
+                    report(ck, key, what, {"kind": "geom", "recs": grecs[lo:hi], "variant": variant})
             for r in grecs[lo:hi]:
                 ck.case(1, ("G", tuple(r["boxw"]), r["rraw"]) if (r["rraw"] % 360 != 0 or r["boxw"][0] != 0 or r["boxw"][1] != 0) else None)
             ck.replayed += n
@@ -620,7 +669,17 @@ def replay_geometry(ck, grecs):
     return drift
 
 
+def has_shared_page(g):
+    """a Page object listed more than once (by one parent or by two): "visiting each node once" is about these"""
+    cnt = {}
+    for n in g:
+        for k in n["kids"]:
+            cnt[k] = cnt.get(k, 0) + 1
+    return any(c > 1 and g[k - 1]["kind"] == "Page" for k, c in cnt.items())
+
+
 def replay_trees(ck, conf, recs, geom, both_variants):
+    ck.extra["graphs_with_a_page_listed_twice"] = ck.extra.get("graphs_with_a_page_listed_twice", 0) + sum(1 for r in recs if has_shared_page(r["g"]))
     _G.update(recs=recs, attrs=tuple(conf["attrs"]), geom=geom, base=ck.seed,
               variants=(lambda i: (0, 1)) if both_variants else (lambda i: (i % 2,)))
     step = max(20, min(400, len(recs) // 64 + 1))
@@ -758,6 +817,8 @@ def big_document(rng, n, back):
         if node["kind"] == "Pages":
             d["Kids"] = [Ref(k + 1) for k in node["kids"]]
             d["Count"] = len(node["kids"])
+        if node["kind"] != "Other" and rng.random() < 0.2:
+            d["Annots"] = [Ref(len(g) + 2)]         # also on Pages nodes: never inherited
         for a in node["own"]:
             if a == "Resources":
                 d[a] = {"Font": {"F1": fref}, "ProcSet": [Name("PDF"), lab]}
@@ -850,6 +911,19 @@ def validate_tree_traces(ck, traces, dev, tmp, label="recorded page-tree traces"
         t, k = int(st["t"]), int(st["k"])
         tr = todo[t - 1]
         todo = todo[t:]
+        # /Annots is recorded too but is not one of the four attributes of the statement: a trace that is accepted
+        # once the Annots values are blanked is reported as extended coverage, not as a violation
+        blank = json.loads(json.dumps(tr))
+        for rec_ in blank["tree"] + blank["pages"]:
+            rec_["vals"]["Annots"] = 0
+        blank["cat"]["Annots"] = 0
+        if blank != tr and _tree_trace_run([blank], tdev, tmp, "noannots").ok:
+            if ck is not None:
+                note_extended(ck, "trace:annots", "the /Annots entries the pages of %s report are not their own dictionaries' (page %d of %d)"
+                              % (tr["name"], k + 1, len(tr["pages"])))
+            else:
+                print("REJECTED (Annots only, extended coverage): " + tr["name"])
+            continue
         rejected += 1
         what = ("recorded walk of %s is not a behaviour of the page-tree specification: after %d of %d pages the machine is at "
                 "pc=%s call=%s, next recorded page %s" % (tr["name"], k, len(tr["pages"]), st.get("pc"), st.get("call"),
